@@ -16,6 +16,14 @@
                     success the design-level properties of Options.tla are evaluated for this
                     (shape, argv) as well (they are model-checked only up to a bound).
 
+     usage      parser.usage() as lines [ind, w]: the structural requirements of Options.tla
+                (UsageReasons); a parse_help record that returned the help text carries that
+                text and usage() of the parser: they must be the same text ("the usage string is
+                gathered from _parser and returned", parse_help.hpp) and meet the requirements
+     run        a direct call of the parser interface, Parser::parse(state, context) with the
+                parser's own option names as context: k = ok | miss | other, st = remaining
+                arguments (ok, miss), rec = value (ok): kind, state and value of RunTop
+
    A reason starting with HARNESS- is a defect of the harness / generator, not of fcppt. *)
 EXTENDS Options, RecordLoop
 
@@ -33,24 +41,75 @@ ResultReasons(r, e, p) ==
   \cup (IF r.ok /\ e.ok /\ ~OptionValueNotPositionalIn(e, r.a) THEN {"invariant-OptionValueNotPositional"} ELSE {})
   \cup (IF ~FlagNeverFailsIn(p, r.a) THEN {"invariant-FlagNeverFails"} ELSE {})
 
-OptionsReasons(r) ==
+HelpSwitchOf(sh) == [short |-> sh.hshort, long |-> sh.hlong]
+
+RunReasons(r, e) ==
+  IF e.k = "diverge" THEN {"HARNESS-PRECONDITION-many-over-nonconsuming-parser"}
+  ELSE
+  (IF r.k = "ok" /\ e.k # "ok" THEN {"succeeds-but-reference-fails"} ELSE {})
+  \cup (IF r.k # "ok" /\ e.k = "ok" THEN {"fails-but-reference-succeeds"} ELSE {})
+  \cup (IF r.k # "ok" /\ e.k # "ok" /\ r.k # e.k THEN {"error-kind-missing-vs-other"} ELSE {})
+  \cup (IF r.k = "ok" /\ e.k = "ok" /\ r.st # Remaining(e) THEN {"remaining-state"} ELSE {})
+  \cup (IF r.k = "ok" /\ e.k = "ok" /\ r.rec # e.val THEN {"record"} ELSE {})
+  \cup (IF r.k = "miss" /\ e.k = "miss" /\ r.st # Remaining(e) THEN {"missing-error-state"} ELSE {})
+
+HelpTextReasons(r, e, p) ==
+  IF r.ok /\ e.ok /\ r.help /\ e.help
+  THEN (IF r.text = r.usage THEN {} ELSE {"help-text-is-not-usage-of-the-parser"}) \cup UsageReasons(r.text, p)
+  ELSE {}
+
+RawReasons(r) ==
   CASE r.f = "tokens" -> IF r.toks = Tokens THEN {} ELSE {"HARNESS-token-table-differs-from-family"}
     [] r.f = "headers" -> IF r.ok THEN {} ELSE {"public-parser-headers-do-not-compile-together"}
     [] ~InRange(r) -> {"HARNESS-unknown-shape"}
     [] r.f = "alphabet" ->
-         IF r.al = Shapes[r.s].alphabet /\ r.ex = Shapes[r.s].extra /\ r.help = Shapes[r.s].help
+         IF /\ r.al = Shapes[r.s].alphabet /\ r.ex = Shapes[r.s].extra /\ r.help = Shapes[r.s].help
+            /\ r.hshort = Shapes[r.s].hshort /\ r.hlong = Shapes[r.s].hlong
          THEN {} ELSE {"HARNESS-alphabet-differs-from-family"}
     [] r.f = "ctor" ->
          LET ill == IllKinds(Shapes[r.s].p) IN
          IF ill = {} THEN (IF r.ctor = "ok" THEN {} ELSE {"well-formed-definition-rejected"})
          ELSE IF r.ctor = "ok" THEN {"ill-formed-definition-accepted"}
          ELSE IF r.ctor \in ill THEN {} ELSE {"unexpected-exception-type"}
+    [] r.f = "usage" -> IF WellFormed(Shapes[r.s].p) THEN UsageReasons(r.lines, Shapes[r.s].p) ELSE {}
+    [] r.f = "run" ->
+         IF ~ArgvOK(r) THEN {"HARNESS-unknown-token"}
+         ELSE IF ~WellFormed(Shapes[r.s].p) THEN {}
+         ELSE RunReasons(r, RunTop(Shapes[r.s].p, r.a))
     [] r.f \in {"parse", "parse_help"} ->
          LET p == Shapes[r.s].p IN
          IF ~ArgvOK(r) THEN {"HARNESS-unknown-token"}
          ELSE IF ~WellFormed(p) THEN {}   \* the verdict is the ctor record ("ill-formed-definition-accepted");
                                           \* what such a parser then parses is not specified
          ELSE IF r.f = "parse_help" /\ ~Shapes[r.s].help THEN {"HARNESS-help-precondition"}
-         ELSE ResultReasons(r, IF r.f = "parse" THEN Parse(p, r.a) ELSE ParseHelp(p, r.a), p)
+         ELSE ResultReasons(r, IF r.f = "parse" THEN Parse(p, r.a) ELSE ParseHelp(p, HelpSwitchOf(Shapes[r.s]), r.a), p)
     [] OTHER -> {"HARNESS-unknown-record-kind"}
+
+(* Scope (docs/EXTENSION_BRIEF.md, "stay inside the property's statement").  A disagreement is a
+   verdict about property C03 only for the record kinds below; for every other kind it is an
+   OBSERVATION (reason prefixed "OBS:", written to the evidence, never a VIOLATION).
+     headers, ctor   "every well-formed parser definition (distinct names, distinct active/inactive
+                     values) can be constructed for every value type"
+     parse           "for every argument vector, parse succeeds exactly when the documented
+                     left-to-right consumption semantics succeeds and returns the same record; ...
+                     every element of the argument vector has been consumed by exactly one
+                     sub-parser ..., an option's value is never taken as a positional argument"
+     parse_help      the same clause, for "the help wrapper" (success / help-or-result / record)
+   but only for parsers "composed of argument, flag/switch, option, unit, unit_switch, optional,
+   many, product (apply), sum, commands and the help wrapper": shapes that contain a make_base /
+   make_cref wrapper are outside.  Outside as well (the statement does not mention them): the
+   structure of usage() and of the help text, the kind of an error (missing vs other), the
+   remaining state / value of a direct Parser::parse call. *)
+HasWrap(p) == \E q \in Nodes(p) : q.k = "wrap"
+InScope(r) ==
+  CASE r.f \in {"tokens", "alphabet", "headers"} -> TRUE
+    [] r.f \in {"ctor", "parse", "parse_help"} -> InRange(r) => ~HasWrap(Shapes[r.s].p)
+    [] OTHER -> FALSE        \* usage, run, and anything added later: observed only
+Observed(S) == {"OBS:" \o w : w \in S}
+
+OptionsReasons(r) ==
+  (IF InScope(r) THEN RawReasons(r) ELSE Observed(RawReasons(r)))
+  \cup (IF r.f = "parse_help" /\ InRange(r) /\ ArgvOK(r) /\ WellFormed(Shapes[r.s].p) /\ Shapes[r.s].help
+        THEN Observed(HelpTextReasons(r, ParseHelp(Shapes[r.s].p, HelpSwitchOf(Shapes[r.s]), r.a), Shapes[r.s].p))
+        ELSE {})
 =============================================================================
